@@ -696,8 +696,8 @@ func genC11Resp(tp *core.Tape, ep *core.Episode, i int, method string, last, ext
 		}
 		ep.Probe("resp-chunked")
 	case 2:
-		if last {
-			m.NoFraming = true // close-delimited
+		if last || ext {
+			m.NoFraming = true // close-delimited (in the middle of a history too: the next exchange needs a new connection)
 			ep.Probe("resp-close-delimited")
 		}
 	case 3:
